@@ -593,7 +593,17 @@ pub fn default_opts(rng: &mut Rng, s: &ASchema) -> Opts {
     o.skip_none = rng.chance(35);
     o.deprecation = *rng.pick(&["warn", "allow", "deny"]);
     // `self` and `Self` enum values collide after Rust normalization (finding C02-name-collision)
-    let collide = s.types.iter().any(|t| matches!(t, AType::Enum { values, .. } if values.iter().any(|v| v == "self") && values.iter().any(|v| v == "Self")));
+    let collide = s.types.iter().any(|t| match t {
+        AType::Enum { values, .. } => {
+            use heck::ToUpperCamelCase;
+            let mut ids: Vec<String> = values.iter().map(|v| v.to_upper_camel_case()).collect();
+            let n = ids.len();
+            ids.sort();
+            ids.dedup();
+            ids.len() != n
+        }
+        _ => false,
+    });
     o.normalization_rust = !collide && rng.chance(30);
     o
 }
@@ -642,6 +652,38 @@ pub fn path_entry_sequence(rep: &mut Report, ctx: &CaseCtx) {
             (Ok(a), Ok(b)) => rep.fail("path-based-generation-uses-another-file", json!({"query_file": qpath.to_string_lossy(), "schema_file": schema_path.to_string_lossy(), "query": text,
                 "by_path": a.map(|t| t.chars().take(600).collect::<String>()), "by_text": b.map(|t| t.chars().take(600).collect::<String>())})),
             _ => rep.fail("path-based-generation-uses-another-file", json!({"query_file": qpath.to_string_lossy(), "what": "one of the two entry points panicked"})),
+        }
+    }
+    // a schema path with `..` after a SYMLINKED directory denotes what the file system says, not its lexical normal form:
+    // `ws/client/../schema.graphql` with `ws/client -> checkouts/sub` is `checkouts/schema.graphql`, not `ws/schema.graphql`
+    {
+        let ws = dir.join("ws");
+        let co = dir.join("checkouts");
+        let _ = std::fs::create_dir_all(&ws);
+        let _ = std::fs::create_dir_all(co.join("sub"));
+        let _ = std::fs::write(ws.join("schema.graphql"), "type Ship { name: String tonnage: Int }\ntype Query { ship: Ship }\n");
+        let _ = std::fs::write(co.join("schema.graphql"), "type Ship { name: String }\ntype Query { ship: Ship }\n");
+        let linked = std::os::unix::fs::symlink(co.join("sub"), ws.join("client")).is_ok();
+        let q = "query Q { ship { name tonnage } }\n";
+        let run = |schema_path: &std::path::Path| -> String {
+            match std::panic::catch_unwind(std::panic::AssertUnwindSafe(|| graphql_client_codegen::generate_module_token_stream_from_string(q, schema_path, Opts::harness().to_real()).map(|t| t.to_string()).map_err(|e| e.to_string()))) {
+                Ok(Ok(t)) => format!("ok:{}", t.len()),
+                Ok(Err(e)) => format!("err:{}", e),
+                Err(_) => "panic".to_string(),
+            }
+        };
+        if linked {
+            let first = run(&ws.join("schema.graphql"));
+            let through_link = run(&ws.join("client").join("..").join("schema.graphql"));
+            let direct = run(&co.join("schema.graphql"));
+            rep.case(Some("paths|symlinked-parent"));
+            rep.count("path-based-call");
+            if first.starts_with("ok:") && through_link == direct && direct.starts_with("err:") {
+                rep.traces_validated += 1;
+            } else {
+                rep.fail("schema-path-resolved-lexically", json!({"query": q, "valid_against_ws_schema": first, "through_symlinked_parent": through_link, "same_file_by_its_direct_path": direct,
+                    "what": "`ws/client/../schema.graphql` (ws/client is a symlink into checkouts/) is checkouts/schema.graphql, where `tonnage` does not exist: the operation must be refused exactly as through the direct path"}));
+            }
         }
     }
     let _ = std::fs::remove_dir_all(&dir);
